@@ -389,7 +389,7 @@ impl<'a> Gen<'a> {
     let budget = SUBSIDY + fees;
     // duplicate of an earlier coinbase (same id, same outputs) when it fits
     let cands: Vec<ATx> = self.coinbases.iter().filter(|c| c.outs.iter().map(|o| o.0).sum::<u64>() <= budget).cloned().collect();
-    let cb = if !cands.is_empty() && self.rng.chance(1, 6) {
+    let cb = if !cands.is_empty() && self.rng.chance(1, 9) {
       self.dups += 1;
       self.rng.pick(&cands).clone()
     } else {
@@ -513,7 +513,7 @@ fn gen_queries(rng: &mut Rng, chain: &[ABlock]) -> Vec<Query> {
 pub fn gen_cases(rng: &mut Rng, tier: &str, prop: &str) -> Vec<Line> {
   let (n, max_blocks) = match (tier, prop) {
     ("thorough", _) => (2500, 40),
-    (_, _) => (150, 12),
+    (_, _) => (120, 12),
   };
   let mut v = Vec::new();
   for i in 0..n {
